@@ -309,3 +309,9 @@ def oracle(w: Any, params: Any) -> List[dict]:
 
 
 execute = std_execute(build, oracle)
+
+
+# wave h documentation (what was added to the enumeration; see DESIGN.md 11.0)
+_WAVE_H = "+ hypercorn's own Logger / StatsdLogger (scenario logger=real|statsd: records come out of Logger.access -> AccessLogAtoms -> the configured format; statsd datagrams through an owned UDP seam): 4 carriers x 4 HTTP / 3 WebSocket scripts x {none,eof,reset,terminate} x 2 loggers x 2 engines, obs-text bytes in one request and one response header"
+RULE = RULE + " " + _WAVE_H
+BOUNDS_DOC = {k: v + " " + _WAVE_H for k, v in BOUNDS_DOC.items()}
